@@ -673,6 +673,9 @@ spifconf_shell_expand(spif_charptr_t s)
                       cnt1 = strlen((char *) tmp) - 1;
                       cnt2 = max - j - 1;
                       j += MIN(cnt1, cnt2);
+                  } else {
+                      /* Nothing to insert; don't leave a hole in the output. */
+                      j--;
                   }
                   pbuff--;
               } else {
